@@ -32,6 +32,7 @@ pub fn plan(quick: bool) -> Vec<Part> {
         v.push(Part::new("C20", "R2", 5, Space::pairs(5, 6)));
         v.push(Part::new("C20", "R3", 4, Space::triples(4, 5)));
     }
+    v.push(Part::new("C20", "handbuilt-node-lists", 4, if quick { Space::singles(4, 6).plus(Space { segs: vec![vcommon::families::Seg::Pair(4, 4), vcommon::families::Seg::Pair(5, 4)] }) } else { Space::singles(4, 8).plus(Space::pairs(4, 5)).plus(Space::triples(4, 4)) }).dim("handbuilt", &[1]));
     for k in BIG_K {
         v.push(Part::new("C20", "catalogue", k, Space { segs: vec![catalogue(k)] }));
     }
@@ -39,7 +40,7 @@ pub fn plan(quick: bool) -> Vec<Part> {
 }
 
 pub fn finalize(_tier: &str, rep: &mut Report) {
-    rep.rule = "for every graph of the read-set families x {stranded, unstranded}: serde_json round trip of BaseGraph and DebruijnGraph (every node, extension set, payload, edge list and all 4^K link lookups identical); GFA via write_gfa (every case) and to_gfa / to_gfa_with_tags (files, a deterministic 1/16 subset): header, one S line per node with its sequence, L lines normalised under 'L a o1 b o2 == L b -o2 a -o1' must equal the reference adjacency set, each exactly once unless it touches a palindromic single-k-mer node, overlap K-1M; JSON via to_json_rest (with and without rest object): must parse, lists every node (id, length, sequence) and exactly the right-going links. Value kinds (every k-mer type, DnaString, Exts, Dir, Lmer, PackedDnaStringSet) are round-tripped over pattern families".into();
+    rep.rule = "for every graph of the read-set families x {stranded, unstranded} (pruned graphs; unpruned thresholded graphs and hand-built node lists with dangling extensions for the GFA/JSON exports): serde_json round trip of BaseGraph and DebruijnGraph (every node, extension set, payload, edge list and all 4^K link lookups identical); GFA via write_gfa (every case) and to_gfa / to_gfa_with_tags (files, a deterministic 1/16 subset): header, one S line per node with its sequence, L lines normalised under 'L a o1 b o2 == L b -o2 a -o1' must equal the reference adjacency set, each exactly once unless it touches a palindromic single-k-mer node, overlap K-1M; JSON via to_json_rest (with and without rest object): must parse, lists every node (id, length, sequence) and exactly the right-going links. Value kinds (every k-mer type, DnaString, Exts, Dir, Lmer, PackedDnaStringSet) are round-tripped over pattern families".into();
     rep.assumptions.push("serde_json is the parser oracle; only the JSON serde format is available offline".into());
     for f in ["right_side_hairpin_self_link", "circular_or_left_self_link", "last_node_without_right_links", "empty_or_link_free_graph"] {
         rep.floor(&format!("R1+RT@K{}:{}", if f.starts_with("right") { 5 } else { 4 }, f), 1);
@@ -223,9 +224,45 @@ fn same_graph<K: Kmer>(o: &mut Outcome, what: &str, a: &DebruijnGraph<K, u16>, b
     }
 }
 
+/// exports of one finished graph (GFA in memory, JSON with and without rest)
+fn exports<K: Kmer>(o: &mut Outcome, what: &str, g: &DebruijnGraph<K, u16>) {
+    let gv = view(g);
+    let mut out = Vec::new();
+    g.write_gfa(&mut out).expect("write_gfa");
+    o.transitions += 3;
+    check_gfa(o, &format!("{}/write_gfa", what), &String::from_utf8_lossy(&out), &gv, None);
+    let mut out = Vec::new();
+    g.to_json_rest(|d| json!(*d), &mut out, None);
+    check_json(o, &format!("{}/to_json_rest(None)", what), &out, &gv, None);
+    let rest = json!({"k": K::k()});
+    let mut out = Vec::new();
+    g.to_json_rest(|d| json!(*d), &mut out, Some(rest.clone()));
+    check_json(o, &format!("{}/to_json_rest(Some)", what), &out, &gv, Some(&rest));
+}
+
 pub fn run<K: Kmer + Send + Sync + Serialize + DeserializeOwned>(c: &GCase) -> Outcome {
     let mut o = Outcome::default();
     let k = K::k();
+    if c.get("handbuilt") == 1 {
+        // hand-built node lists with every extension bit set: most extensions dangle, some resolve
+        let nodes = c.reads_s();
+        let firsts: BTreeSet<&[u8]> = nodes.iter().map(|n| &n[..k]).collect();
+        let lasts: BTreeSet<&[u8]> = nodes.iter().map(|n| &n[n.len() - k..]).collect();
+        let all: Vec<S> = nodes.iter().flat_map(|n| windows(n, k)).map(|w| canon(&w, c.stranded).0).collect();
+        if firsts.len() != nodes.len() || lasts.len() != nodes.len() || all.iter().collect::<BTreeSet<_>>().len() != all.len() {
+            return o;
+        }
+        let mut bg: BaseGraph<K, u16> = BaseGraph::new(c.stranded);
+        for (i, n) in nodes.iter().enumerate() {
+            bg.add(n.iter(), Exts::new(0xff), i as u16);
+        }
+        let g = bg.finish_serial();
+        if view(&g).nodes.iter().any(|n| !n.redges.is_empty()) {
+            o.flags |= flag::SPECIFIC3;
+        }
+        exports(&mut o, "handbuilt", &g);
+        return o;
+    }
     let rs = c.reads_s();
     let reads = plain_reads(&rs);
     let m = models(&reads, k, c.stranded, c.thr);
@@ -233,6 +270,11 @@ pub fn run<K: Kmer + Send + Sync + Serialize + DeserializeOwned>(c: &GCase) -> O
     let (table, _) = count_table::<K>(&reads, c.stranded, c.thr, false);
     let mut pruned = sorted_vec(&table);
     remove_censored_exts(c.stranded, &mut pruned);
+    // graphs with dangling extensions (thresholded, unpruned table): exports must cope with extension bits that resolve to no node
+    if !m.kept.is_closed() {
+        let gu = compress_kmers_with_hash(c.stranded, &sum_spec(), &table).finish_serial();
+        exports(&mut o, "unpruned", &gu);
+    }
     let bg = compress_kmers(c.stranded, &sum_spec(), &pruned);
     // serde: BaseGraph
     {
